@@ -531,14 +531,15 @@ def run(ctx):
 
     # ------------------------------------------------------------------ D4
     up = repo.func(URL + ':uppercase_percent_encoding')
-    subs = [c for c in U.calls(up.node) if dotted(c.func) == 're.sub']
+    subs = [c for c in U.calls(up.node) if U.attr_name(c) == 'sub']
     if not subs:
-        raise AnalysisError('re.sub not found in uppercase_percent_encoding')
+        raise AnalysisError('no .sub(...) call found in uppercase_percent_encoding')
     for c in subs:
-        rx = RX.rx_from_call(repo, mod, c)
-        if rx is None:
+        got = RX.rx_from_method_call(repo, mod, c)
+        if got is None:
             ck.bad('C10-D4', up.qual, norm_text(c), 'escape pattern is not a constant', up.loc(c))
             continue
+        rx, shift = got
         seq = rx.flat()
         ok = len(seq) == 3 and seq[0] == (C.LITERAL, ord('%'))
         missing = []
@@ -550,7 +551,7 @@ def run(ctx):
         ck.expect(ok and not missing, 'C10-D4', up.qual, 'pattern %r covers %%[0-9A-Fa-f]{2}' % rx.pattern,
                   'escape upper-casing pattern %r misses escapes with %s: two spellings of one URL get two normal forms'
                   % (rx.pattern, sorted({c for _, c in missing}) if missing else 'unexpected shape'), up.loc(c))
-        repl = c.args[1] if len(c.args) > 1 else None
+        repl = c.args[1 - shift] if len(c.args) > 1 - shift else None
         okr = isinstance(repl, ast.Lambda) and norm_text(repl.body).endswith('.group(0).upper()')
         ck.expect(okr, 'C10-D4', up.qual, 'replacement upper-cases the whole match',
                   'replacement does not upper-case the matched escape', up.loc(c))
